@@ -32,6 +32,8 @@ import (
 // Binding gives access to the generated types of the batch.
 type Binding struct {
 	Types map[string]reflect.Type
+	// Lin gives access to the instrumented copies of the concurrent utilities (linsim).
+	Lin *LinBinding
 }
 
 // RunSpec describes one simulated run.
